@@ -29,7 +29,9 @@ func VerifHarness_C29_ConstrainBounds() {
 	}
 	upperExclusive := sym.Bool("virtual-upper-exclusive")
 	if upperExclusive {
-		v.Upper = base.MakeExclusiveSentinelKey(base.InternalKeyKindRangeDelete, upper)
+		// every kind of exclusive sentinel a table bound can carry
+		kinds := []base.InternalKeyKind{base.InternalKeyKindRangeDelete, base.InternalKeyKindRangeKeySet, base.InternalKeyKindRangeKeyUnset, base.InternalKeyKindRangeKeyDelete}
+		v.Upper = base.MakeExclusiveSentinelKey(kinds[sym.Choose("sentinel-kind", len(kinds))], upper)
 	}
 	var start, end []byte
 	if sym.Bool("has-start") {
